@@ -26,6 +26,7 @@ LEVEL = "model_checking"
 
 NAME2CODE = {"NotFoundError": 404, "ConflictError": 409, "InternalServerError": 500}
 ALL_CLIENTS = ["c1", "c2", "c3"]
+ENV_KINDS = ["conflict", "empty", "truncated", "bom", "list", "reg-deleted", "aliases-deleted", "aliases-emptied", "int-registry", "int-aliases"]
 
 
 def lid(depth: int, lay: str) -> str:
@@ -39,8 +40,12 @@ def families(tier: str) -> list[dict[str, Any]]:
     C1/C2: PREFIX-RELATED names (one package name a string prefix of another without being its parent) - the
     specification treats names as atoms, so the same trees must behave the same under these spellings."""
     S1, S2, S3 = [[404], [404, 409], [500]], [[], [404], [409, 500]], [[404], [500]]
+    # E: histories with ONE environment step (the world corrupts / deletes the registry or the alias file, or a run is
+    # killed in the middle) after every env-free prefix, the kind rotated over the prefixes, followed by generator steps
     if tier == "quick":
         return [
+            {"name": "E", "naming": "plain", "clients": ["c1", "c2"], "codesets": S3, "canon": False, "split": 1,
+             "layouts": [(1, "sib", 3)], "maxenv": 1, "envkinds": ENV_KINDS, "rot_width": 1, "gens_after_env": 1},
             {"name": "A", "naming": "plain", "clients": ["c1", "c2"], "codesets": S1, "canon": False, "split": 1,
              "layouts": [(1, "api", 3), (3, "sib", 3), (2, "sib", 2), (0, "sib", 2)]},
             {"name": "B", "naming": "plain", "clients": ["c1", "c2"], "codesets": S2, "canon": False, "split": 1,
@@ -51,6 +56,10 @@ def families(tier: str) -> list[dict[str, Any]]:
              "layouts": [(1, "sib", 2), (1, "api", 2), (2, "sib", 2), (3, "api", 2)]},
         ]
     return [
+        {"name": "E", "naming": "plain", "clients": ["c1", "c2"], "codesets": S1, "canon": False, "split": 1,
+         "layouts": [(1, "sib", 3), (2, "far", 3), (3, "api", 3)], "maxenv": 1, "envkinds": ENV_KINDS, "rot_width": 3, "gens_after_env": 1},
+        {"name": "E1", "naming": "n1", "clients": ["c1", "c2"], "codesets": S3, "canon": False, "split": 1,
+         "layouts": [(1, "sib", 3), (2, "sib", 3)], "maxenv": 1, "envkinds": ENV_KINDS, "rot_width": 2, "gens_after_env": 2},
         {"name": "A", "naming": "plain", "clients": ALL_CLIENTS, "codesets": S1, "canon": True, "split": 2,
          "layouts": [(1, "api", 4), (3, "sib", 4), (2, "sib", 3), (0, "sib", 3)]},
         {"name": "B", "naming": "plain", "clients": ["c1", "c2"], "codesets": S2, "canon": False, "split": 1,
@@ -96,68 +105,94 @@ def names_relation(clients: list[str], depth: int, lay: str, naming: str) -> str
 DESIGN_LAYOUTS = [(0, "sib"), (1, "sib"), (1, "api"), (2, "far"), (3, "sib"), (4, "api")]
 
 
-def mc_module() -> str:
-    """Served / NeverShrinksNeeded as one named formula per layout, so that TLC can tell where they fail."""
-    lines = ["---- MODULE MC_SharedCore ----", "EXTENDS SharedCore", "MCCodeSets == SUBSET {404, 409, 500}"]
-    lines.append("MCLayouts == {" + ",\n  ".join(layout_tla(d, lay, ALL_CLIENTS) for d, lay in DESIGN_LAYOUTS) + "}")
+ENV_DESIGN_LAYOUTS = [(1, "sib"), (2, "far")]
+ENV_DESIGN_CLIENTS = ["c1", "c2"]
+
+
+def design_configs() -> list[dict[str, Any]]:
+    """(a) no interference: 3 clients, every code set, 6 layouts, histories <= 4; Served / NeverShrinksNeeded per layout.
+    (b) with ONE environment step anywhere in a history of <= 3 generations (2 clients, 4 code sets, 2 layouts):
+        KeepsWorking per kind of environment step.  One named formula per layout / kind, so that TLC can tell where."""
+    a_lines = ["---- MODULE MC_SharedCore ----", "EXTENDS SharedCore", "MCCodeSets == SUBSET {404, 409, 500}", "MCEnvKinds == {}"]
+    a_lines.append("MCLayouts == {" + ",\n  ".join(layout_tla(d, lay, ALL_CLIENTS) for d, lay in DESIGN_LAYOUTS) + "}")
+    a_formulas = {}
     for i, (d, lay) in enumerate(DESIGN_LAYOUTS):
-        lines.append(f'Served_{i} == layout.id = "{lid(d, lay)}" => Served')
-        lines.append(f'NeverShrinksNeeded_{i} == [][layout.id = "{lid(d, lay)}" => NeverShrinksNeededStep]_vars')
-    lines.append("====")
-    return "\n".join(lines) + "\n"
+        a_lines.append(f'Served_{i} == layout.id = "{lid(d, lay)}" => Served')
+        a_lines.append(f'NeverShrinksNeeded_{i} == [][layout.id = "{lid(d, lay)}" => NeverShrinksNeededStep]_vars')
+        a_formulas[f"Served_{i}"] = ("INVARIANT", "Served", {"core_depth": d, "layout": lay, "env": "none", "level": "design"})
+        a_formulas[f"NeverShrinksNeeded_{i}"] = ("PROPERTY", "NeverShrinksNeeded", {"core_depth": d, "layout": lay, "env": "none", "level": "design"})
+    a_lines.append("====")
+    b_lines = ["---- MODULE MC_SharedCoreEnv ----", "EXTENDS SharedCore", "MCCodeSets == {{}, {404}, {404, 409}, {500}}",
+               "MCEnvKinds == " + tla(set(ENV_KINDS))]
+    b_lines.append("MCLayouts == {" + ",\n  ".join(layout_tla(d, lay, ENV_DESIGN_CLIENTS) for d, lay in ENV_DESIGN_LAYOUTS) + "}")
+    b_formulas = {}
+    for i, k in enumerate(ENV_KINDS):
+        b_lines.append(f'KeepsWorking_{i} == [][(IsGenStep /\\ envkind = "{k}") => KeepsWorkingStep]_vars')
+        b_formulas[f"KeepsWorking_{i}"] = ("PROPERTY", "KeepsWorking", {"env": k, "level": "design"})
+    b_lines.append("====")
+    return [
+        {"module": "MC_SharedCore", "text": "\n".join(a_lines) + "\n", "clients": ALL_CLIENTS, "maxlen": 4, "maxenv": 0, "formulas": a_formulas, "min_states": 1000},
+        {"module": "MC_SharedCoreEnv", "text": "\n".join(b_lines) + "\n", "clients": ENV_DESIGN_CLIENTS, "maxlen": 3, "maxenv": 1, "formulas": b_formulas, "min_states": 1000},
+    ]
 
 
-def mc_cfg(formulas: list[str]) -> str:
+def mc_cfg(cfg: dict[str, Any], formulas: list[str]) -> str:
     lines = [
         "SPECIFICATION Spec",
         "CONSTANTS",
-        f" Clients = {tla(set(ALL_CLIENTS))}",
+        f" Clients = {tla(set(cfg['clients']))}",
         " CodeSets <- MCCodeSets",
         " Layouts <- MCLayouts",
-        " MaxLen = 4",
+        " EnvKinds <- MCEnvKinds",
+        f" MaxLen = {cfg['maxlen']}",
+        f" MaxEnv = {cfg['maxenv']}",
         "INVARIANT TypeOK",
         "INVARIANT LayoutOK",
         "INVARIANT RegistryKeepsClients",
         "INVARIANT AliasesAreUnion",
     ]
-    lines += [f"{'INVARIANT' if f.startswith('Served') else 'PROPERTY'} {f}" for f in formulas]
+    lines += [f"{cfg['formulas'][f][0]} {f}" for f in formulas]
     lines.append("CHECK_DEADLOCK FALSE")
     return "\n".join(lines) + "\n"
 
 
-_CEX = re.compile(r"^State \d+: <(Generate\(.*?\)) line", re.M)
+_CEX = re.compile(r"^State \d+: <((?:Generate|Corrupt|Interrupted)\(.*?\)) line", re.M)
 
 
 def design(chk: Check) -> None:
     """Model-check SharedCore.tla.  The mechanism invariants must hold (else machinery failure: the model is wrong);
-    the C11 formulas are evaluated per layout: every one TLC refutes is recorded as a design-level failure (its
-    counterexample is the specification-level statement of the defect), removed, and TLC is run again until the
-    remaining formulas hold on the complete state space."""
-    files = {"MC_SharedCore.tla": mc_module()}
-    idx = range(len(DESIGN_LAYOUTS))
-    todo = [f"Served_{i}" for i in idx] + [f"NeverShrinksNeeded_{i}" for i in idx]
-    while True:
-        r = run_tlc(chk.scratch, "MC_SharedCore", mc_cfg(todo), files=files, workers=1, coverage=True, allow_violation=True)
-        chk.add_tlc(f"MC_SharedCore[{len(todo)} C11 formulas + mechanism invariants]", r)
-        if not r.violated:
-            break
-        bad = r.violated[0]
-        chk.require(bad in todo, f"the design model breaks its own mechanism invariant {bad!r}:\n{r.out[-1500:]}")
-        name, _, i = bad.rpartition("_")
-        d, lay = DESIGN_LAYOUTS[int(i)]
-        cex = _CEX.findall(r.out)
-        chk.fail(
-            f"C11.design.{name}",
-            {"core_depth": d, "layout": lay, "level": "design"},
-            {"level": "design", "module": "SharedCore", "property": name, "depth": d, "layout": lay, "counterexample": cex},
-            "TLC counterexample of the implementation-shaped model: " + " ; ".join(cex),
-        )
-        chk.sample({"kind": "design counterexample", "property": name, "depth": d, "layout": lay, "behaviour": cex}, cap=8)
-        todo.remove(bad)
-    chk.clause("C11.design", len(todo))
-    chk.cov["design_formulas_holding"] = [f"{t.rpartition('_')[0]}[{lid(*DESIGN_LAYOUTS[int(t.rpartition('_')[2])])}]" for t in todo]
-    chk.require(r.coverage.get("Generate", (0, 0))[1] > 0, "vacuous design run: Generate never taken")
-    chk.require(r.distinct > 1000, f"design state space unexpectedly small ({r.distinct})")
+    the C11 formulas are evaluated per layout / per kind of environment step: every one TLC refutes is recorded as a
+    design-level failure (its counterexample is the specification-level statement of the defect), removed, and TLC is
+    run again until the remaining formulas hold on the complete state space."""
+    holding = []
+    for cfg in design_configs():
+        files = {cfg["module"] + ".tla": cfg["text"]}
+        todo = list(cfg["formulas"])
+        while True:
+            r = run_tlc(chk.scratch, cfg["module"], mc_cfg(cfg, todo), files=files, workers=1, coverage=True, allow_violation=True)
+            chk.add_tlc(f"{cfg['module']}[{len(todo)} C11 formulas + mechanism invariants]", r)
+            if not r.violated:
+                break
+            bad = r.violated[0]
+            chk.require(bad in todo, f"the design model breaks its own mechanism invariant {bad!r}:\n{r.out[-1500:]}")
+            _kind, name, locus = cfg["formulas"][bad]
+            cex = _CEX.findall(r.out)
+            chk.fail(
+                f"C11.design.{name}",
+                dict(locus),
+                {"level": "design", "module": "SharedCore", "property": name, **{k: v for k, v in locus.items() if k != "level"}, "counterexample": cex},
+                "TLC counterexample of the implementation-shaped model: " + " ; ".join(cex),
+            )
+            chk.sample({"kind": "design counterexample", "property": name, "locus": locus, "behaviour": cex}, cap=8)
+            todo.remove(bad)
+        chk.clause("C11.design", len(todo))
+        holding += [f"{cfg['formulas'][t][1]}[{' '.join(f'{k}={v}' for k, v in cfg['formulas'][t][2].items() if k != 'level')}]" for t in todo]
+        chk.require(r.coverage.get("Generate", (0, 0))[1] > 0, "vacuous design run: Generate never taken")
+        if cfg["maxenv"]:
+            for act in ("Corrupt", "Interrupted"):
+                chk.require(r.coverage.get(act, (0, 0))[1] > 0, f"vacuous design run: {act} never taken")
+        chk.require(r.distinct > cfg["min_states"], f"design state space unexpectedly small ({r.distinct})")
+    chk.cov["design_formulas_holding"] = holding
 
 
 # ---------------------------------------------------------------------------------------------
@@ -171,6 +206,7 @@ EXTENDS Gen_SharedCore
 MCOrder == {tla(fam['clients'])}
 MCCodeSets == {{{", ".join(tla(set(cs)) if cs else "{}" for cs in fam['codesets'])}}}
 MCLayouts == {{{", ".join(layout_tla(d, lay, fam['clients']) for d, lay, _ in fam['layouts'])}}}
+MCEnvKinds == {tla(set(fam.get('envkinds', []))) if fam.get('envkinds') else "{}"}
 ====
 """
     cfg = f"""INIT GInit
@@ -181,7 +217,9 @@ CONSTANTS
  Canon = {tla(bool(fam['canon']))}
  CodeSets <- MCCodeSets
  Layouts <- MCLayouts
+ EnvKinds <- MCEnvKinds
  MaxLen = {max(m for _, _, m in fam['layouts'])}
+ MaxEnv = {fam.get('maxenv', 0)}
 CHECK_DEADLOCK FALSE
 """
     r = run_tlc(chk.scratch, "MC_GenSharedCore", cfg, files={"MC_GenSharedCore.tla": mod}, workers=8, coverage=True, extra=["-dump", "dot,actionlabels", "graph.dot"])
@@ -192,9 +230,9 @@ CHECK_DEADLOCK FALSE
     maxlen = {lid(d, lay): m for d, lay, m in fam["layouts"]}
     layof = {lid(d, lay): (d, lay) for d, lay, _ in fam["layouts"]}
     for st in nodes.values():
-        hist = [[h["c"], sorted(h["codes"]), bool(h["force"])] for h in st["hist"]]
+        hist = [[h["c"], sorted(h["codes"]), bool(h["force"])] + ([] if h["env"] == "gen" else [h["env"]]) for h in st["hist"]]
         L = st["layout"]["id"]
-        if len(hist) > maxlen[L]:
+        if sum(1 for h in hist if len(h) == 3) > maxlen[L]:
             continue
         reg = st["registry"]
         out.append(
@@ -209,12 +247,54 @@ CHECK_DEADLOCK FALSE
                     "registry": {c: sorted(v) for c, v in reg.items()} if isinstance(reg, dict) else {},
                     "aliases": sorted(st["aliases"]),
                     "priv": {c: sorted(v) for c, v in st["priv"].items()},
+                    "regstate": st["regstate"],
                 },
             }
         )
     out.sort(key=lambda n: (n["lid"], len(n["hist"]), json.dumps(n["hist"])))
+    if fam.get("maxenv") and not fam.get("norotate"):
+        out = rotate_env(fam, out)
     chk.require(sum(1 for n in out if n["hist"]) > 0, "history tree is empty")
     return out
+
+
+def rotate_env(fam: dict[str, Any], nodes: list[dict[str, Any]]) -> list[dict[str, Any]]:
+    """Stratified selection from the tree with environment steps: every env-free prefix (shorter than the longest
+    history) is kept; after the i-th prefix of a layout `rot_width` kinds of environment step are taken, rotating
+    through ENV kinds (the next enabled kind when one is not enabled there), each followed by <= gens_after_env
+    generator steps.  Deterministic; no knowledge of what the code does enters the selection."""
+    kinds = fam["envkinds"]
+    keep: list[dict[str, Any]] = []
+    bylay: dict[str, list[dict[str, Any]]] = {}
+    for n in nodes:
+        bylay.setdefault(n["lid"], []).append(n)
+    for L, ns in bylay.items():
+        maxlen = {lid(d, lay): m for d, lay, m in fam["layouts"]}[L]
+        envfree = [n for n in ns if all(len(h) == 3 for h in n["hist"])]
+        prefixes = sorted((n for n in envfree if 1 <= len(n["hist"]) < maxlen), key=lambda n: json.dumps(n["hist"]))
+        keep += [n for n in envfree if len(n["hist"]) < maxlen]
+        children: dict[str, list[dict[str, Any]]] = {}
+        for n in ns:
+            envpos = [i for i, h in enumerate(n["hist"]) if len(h) == 4]
+            if envpos:
+                children.setdefault(json.dumps(n["hist"][: envpos[0]]), []).append(n)
+        for i, p in enumerate(prefixes):
+            sub = children.get(json.dumps(p["hist"]), [])
+            plen = len(p["hist"])
+            first = sorted((n for n in sub if len(n["hist"]) == plen + 1), key=lambda n: json.dumps(n["hist"]))
+            chosen: list[str] = []
+            for w in range(fam["rot_width"]):
+                for j in range(len(kinds)):
+                    k = kinds[(i * fam["rot_width"] + w + j) % len(kinds)]
+                    cands = [n for n in first if n["hist"][-1][3] == k and json.dumps(n["hist"]) not in chosen]
+                    if cands:
+                        chosen.append(json.dumps(cands[(i // len(kinds)) % len(cands)]["hist"]))
+                        break
+            for c in chosen:
+                ch = json.loads(c)
+                keep += [n for n in sub if n["hist"][: plen + 1] == ch and len(n["hist"]) <= plen + 1 + fam["gens_after_env"]]
+    keep.sort(key=lambda n: (n["lid"], len(n["hist"]), json.dumps(n["hist"])))
+    return keep
 
 
 def hkey(fam: str, layout_id: str, hist: list) -> str:
@@ -277,21 +357,25 @@ def project(ob: dict, depth: int, layout: str, naming: str, clients: list[str], 
         "registry": {pkg2id.get(k, "?" + k): v for k, v in ob["registry"].items()},
         "aliases": codes_of(ob["aliases"], unknown) if depth >= 1 else [],
         "priv": {c: (codes_of(probes[c]["visible"], unknown) if (depth == 0 and c in probes) else []) for c in clients},
+        "regstate": ob.get("regstate", "absent"),
     }
 
 
 def pre_of(parent: dict | None) -> dict[str, Any]:
     if parent is None:
-        return {"generated": [], "ok": [], "served": [], "declared": {}, "regfile": False, "registry": {}}
+        return {"generated": [], "ok": [], "served": [], "declared": {}, "regfile": False, "regstate": "absent", "registry": {}, "env": "none"}
     return parent["post"]
 
 
 def post_of(ob: dict, pre: dict, depth: int, layout: str, naming: str, clients: list[str]) -> dict[str, Any]:
     pkg2id = {packages(c, depth, layout, naming)[0]: c for c in clients}
-    cid, codes, _force = ob["h"][-1]
+    cid, codes, force = ob["h"][-1][:3]
+    env = ob.get("env", "gen")
     declared = dict(pre["declared"])
     if ob["applied"]:
         declared[cid] = sorted(codes)
+    elif (env == "gen" and not ob["gen"]["ok"] and (force or not ob["existed"])) or (env.startswith("int-") and ob.get("env_applied")):
+        declared[cid] = []  # a direct generation that failed / was killed: the package directory was re-created empty
     ps = [p for p in ob["probes"] if p["exists"]]
     return {
         "generated": sorted(p["client"] for p in ps),
@@ -299,12 +383,14 @@ def post_of(ob: dict, pre: dict, depth: int, layout: str, naming: str, clients: 
         "served": sorted(p["client"] for p in ps if set(p["needs"]) <= set(p["visible"])),
         "declared": declared,
         "regfile": bool(ob["regfile"]),
+        "regstate": ob.get("regstate", "absent"),
         "registry": {pkg2id.get(k, "?" + k): v for k, v in ob["registry"].items()},
+        "env": pre.get("env", "none") if env == "gen" else env,
     }
 
 
 def trace_of(tid: str, ob: dict, pre: dict, post: dict, depth: int, layout: str, names: str) -> dict[str, Any]:
-    cid, codes, force = ob["h"][-1]
+    cid, codes, force = ob["h"][-1][:3]
     ev: list[dict[str, Any]] = [
         {
             "k": "generate",
@@ -314,6 +400,7 @@ def trace_of(tid: str, ob: dict, pre: dict, post: dict, depth: int, layout: str,
             "applied": bool(ob["applied"]),
             "errtype": ob["gen"]["errtype"],
             "regfile": post["regfile"],
+            "regstate": post["regstate"],
             "registry": post["registry"],
             "aliases": ob["aliases"],
         }
@@ -321,7 +408,7 @@ def trace_of(tid: str, ob: dict, pre: dict, post: dict, depth: int, layout: str,
     for p in ob["probes"]:
         if p["exists"]:
             ev.append({"k": "probe", "client": p["client"], "imports": bool(p["imports"]), "missing": p["missing"], "needs": p["needs"], "visible": p["visible"], "exc": p["exc"]})
-    return {"id": tid, "depth": depth, "layout": layout, "names": names, "pre": pre, "ev": ev}
+    return {"id": tid, "depth": depth, "layout": layout, "names": names, "env": pre.get("env", "none"), "pre": {k: v for k, v in pre.items() if k != "env"}, "ev": ev}
 
 
 def monitor(chk: Check, traces: list[dict], label: str) -> dict[str, dict]:
@@ -387,11 +474,21 @@ def replay_and_judge(chk: Check, fams: list[tuple[dict, list[dict]]], spawn_ever
                 ndrift += 1
                 if first_drift is None:
                     first_drift = f"family {fam['name']} (names {naming}: {relation[n['lid']]}) depth {n['depth']} layout {n['lay']} packages {[packages(c, n['depth'], n['lay'], naming) for c in fam['clients'][:2]]} after {json.dumps(n['hist'])}: real {json.dumps(real, sort_keys=True)} vs SharedCore.tla {json.dumps(n['state'], sort_keys=True)} (generate: {ob['gen']['errtype']})"
+            if ob.get("env", "gen") != "gen":
+                # an environment step: observed (it is the `pre` of the next generator step), compared, never judged
+                chk.cov.setdefault("env_steps", {}).setdefault(ob["env"], 0)
+                chk.cov["env_steps"][ob["env"]] += 1
+                chk.require(ob.get("env_applied", False), f"environment step {ob['env']} could not be applied after {json.dumps(n['hist'][:-1])} ({ob['gen']})")
+                continue
             if ob["existed"] and not n["hist"][-1][2]:
                 key = "nonforce_over_existing_returned" if ob["gen"]["ok"] else "nonforce_over_existing_raised"
                 chk.cov[key] = chk.cov.get(key, 0) + 1
             elif not ob["gen"]["ok"]:
-                chk.cov["direct_generation_raised"] = chk.cov.get("direct_generation_raised", 0) + 1
+                chk.cov.setdefault("direct_generation_raised", {}).setdefault(ob["gen"]["errtype"], 0)
+                chk.cov["direct_generation_raised"][ob["gen"]["errtype"]] += 1
+            if post["env"] != "none":
+                chk.cov.setdefault("gen_steps_after_env", {}).setdefault(post["env"], 0)
+                chk.cov["gen_steps_after_env"][post["env"]] += 1
             tid = k
             traces.append(trace_of(tid, ob, pre, post, n["depth"], n["lay"], relation[n["lid"]]))
             meta[tid] = {"fam": fam["name"], "depth": n["depth"], "layout": n["lay"], "naming": naming, "hist": n["hist"], "ob": ob, "spec_state": n["state"]}
@@ -427,7 +524,7 @@ def replay_and_judge(chk: Check, fams: list[tuple[dict, list[dict]]], spawn_ever
                 "layout": m["layout"],
                 "naming": m["naming"],
                 "hist": m["hist"],
-                "packages": {c: packages(c, m["depth"], m["layout"], m["naming"])[0] for c in sorted({s[0] for s in m["hist"]})},
+                "packages": {c: packages(c, m["depth"], m["layout"], m["naming"])[0] for c in sorted({s[0] for s in m["hist"] if s[0] != "-"})},
                 "core_package": ck,
                 "broken_client": pk,
             }
@@ -437,11 +534,14 @@ def replay_and_judge(chk: Check, fams: list[tuple[dict, list[dict]]], spawn_ever
     chk.cov["steps_with_another_client_present"] = chk.cov.get("steps_with_another_client_present", 0) + nother
     chk.require(nother > 0, "no step was taken with another client present (family does not exercise sharing)")
     chk.require(nreg > 0 or label == "replay", "the registry was never observed (family does not exercise the mechanism)")
+    if label != "replay":
+        missing_env = [k for k in ENV_KINDS if not chk.cov.get("gen_steps_after_env", {}).get(k)]
+        chk.require(not missing_env, f"no generator step was replayed after environment step(s) {missing_env}")
     chk.require(label == "replay" or sum(v for k, v in chk.cov.get("steps_by_names", {}).items() if k != "unrelated") > 0, "no step with prefix-related package names was replayed")
     # samples
     some = []
     for d, nm in ((1, "plain"), (3, "plain"), (1, "n1")):
-        some += [m for m in meta.values() if m["depth"] == d and m["naming"] == nm and len(m["hist"]) >= 2 and len({s[0] for s in m["hist"]}) >= 2 and m["ob"]["applied"]][:1]
+        some += [m for m in meta.values() if m["depth"] == d and m["naming"] == nm and len(m["hist"]) >= 2 and len({s[0] for s in m["hist"] if s[0] != "-"}) >= 2 and m["ob"]["applied"]][:1]
     for m in some:
         chk.sample({"kind": "replayed step", "depth": m["depth"], "layout": m["layout"], "naming": m["naming"], "hist": m["hist"], "spec_state": m["spec_state"], "observed": {k: m["ob"][k] for k in ("regfile", "registry", "aliases")},
                     "probes": [{k: p[k] for k in ("client", "pkg", "imports", "missing", "needs")} for p in m["ob"]["probes"]]}, cap=10)
@@ -478,10 +578,12 @@ def replay(chk: Check, path: str) -> None:
         design(chk)
     else:
         hist = sc["hist"]
-        clients = sorted({s[0] for s in hist} | {"c1", "c2"})
+        clients = sorted({s[0] for s in hist if s[0] != "-"} | {"c1", "c2"})
+        envs = sorted({s[3] for s in hist if len(s) > 3})
         # the specification's states along this one history come from the history tree of a one-path family
-        fam = {"name": "R", "naming": sc.get("naming", "plain"), "clients": clients, "codesets": [list(c) for c in sorted({tuple(s[1]) for s in hist})],
-               "canon": False, "split": 1, "layouts": [(sc["depth"], sc["layout"], len(hist))]}
+        fam = {"name": "R", "naming": sc.get("naming", "plain"), "clients": clients, "codesets": [list(c) for c in sorted({tuple(s[1]) for s in hist if s[0] != "-"})],
+               "canon": False, "split": 1, "layouts": [(sc["depth"], sc["layout"], sum(1 for s in hist if len(s) == 3))],
+               "maxenv": len([s for s in hist if len(s) > 3]), "envkinds": envs, "norotate": True}
         allnodes = gen_tree(chk, fam)
         want = {json.dumps(hist[:i]) for i in range(1, len(hist) + 1)}
         nodes = [n for n in allnodes if json.dumps(n["hist"]) in want]
